@@ -271,7 +271,7 @@ class Run:
         self.plan = plan
         self.case_no = case_no
         self.known = findings.load(PROPERTY)
-        self.first_unknown = None
+        self.unknown = {}  # signature -> first detail
         self.noted = set()
         self.nontrivial = False
 
@@ -284,15 +284,21 @@ class Run:
                 self.sim.notes.setdefault("known", []).append(sig)
             return
         self.sim.event("DISAGREE", *sig[1:])
-        if self.first_unknown is None:
-            self.first_unknown = (sig, detail)
+        self.unknown.setdefault(tuple(sig), detail)
         if os.environ.get("VERIF_C38_COLLECT"):
             self.sim.notes.setdefault("all_disagreements", {}).setdefault(":".join(sig[1:]), detail)
 
     def finish(self):
-        if self.first_unknown is not None:
-            sig, detail = self.first_unknown
-            self.sim.fail("backends_agree", sig, f"case {self.case_no}: {detail}")
+        """One violation per run: when a case shows several unknown disagreements, the
+        one reported is chosen by a seed-dependent but stable rank, so that across runs
+        every signature surfaces and none masks the others."""
+        if self.unknown:
+            import hashlib
+
+            sig = min(self.unknown, key=lambda s: hashlib.sha1(f"{self.sim.seed}:{s}".encode()).hexdigest())
+            others = [":".join(s[1:]) for s in self.unknown if s != sig]
+            more = f" (also in this case: {others})" if others else ""
+            self.sim.fail("backends_agree", list(sig), f"case {self.case_no}: {self.unknown[sig]}{more}")
 
 
 def execute(sim, plan):
